@@ -224,7 +224,12 @@ impl<'a> Sk<'a> {
                 match self.val(a, out)? {
                     Some(t) => kept_args.push(t),
                     None => {
-                        // kept position, erased value: arbitrary
+                        // kept position, erased value: arbitrary.  When the argument is a plain local the skeleton does
+                        // not follow (neither kept nor tracked nor an alias of a literal), a refutation that rests on its
+                        // arbitrary value says "unknown", not "wrong": noted as S8 (believed only with a replayed witness)
+                        if matches!(a, syn::Expr::Path(p) if p.path.get_ident().is_some()) {
+                            self.note("S8", a.span(), "a local the skeleton does not follow is handed to an event in a kept position: arbitrary value");
+                        }
                         let k = self.fresh("a");
                         out.push(format!("let {k} = arb();"));
                         kept_args.push(k);
@@ -270,6 +275,14 @@ impl<'a> Sk<'a> {
                         let key: String = init.to_string().split_whitespace().collect::<Vec<_>>().join("");
                         if let Some(n) = self.alias.get(&key) {
                             return Ok(Some(n.clone()));
+                        }
+                        // .. or a boolean / integer literal (`let debug = false;` .. `f(x, debug)`): the literal
+                        if let Ok(syn::Expr::Lit(l)) = syn::parse2::<syn::Expr>(init.clone()) {
+                            match &l.lit {
+                                syn::Lit::Bool(b) => return Ok(Some(b.value.to_string())),
+                                syn::Lit::Int(i) if i.suffix().is_empty() || i.suffix() == "usize" => return Ok(Some(i.base10_digits().to_string())),
+                                _ => {}
+                            }
                         }
                     }
                 }
